@@ -77,7 +77,7 @@ def config(draw):
         weight_relief=draw(st.booleans()),
         n_masses=draw(st.sampled_from([0, 1])) if topo != "aero" else 0,
         mode=draw(st.sampled_from(["auto", "fwd", "rev"])),
-        two_surfaces=draw(st.booleans()) if topo == "aero" else False,
+        two_surfaces=draw(st.booleans()) if topo == "aero" else (draw(st.sampled_from([False, False, True])) if topo == "aerostruct" else False),
         points=draw(st.lists(point(topo), min_size=2, max_size=4)),
     )
     if cfg["compressible"]:
@@ -197,14 +197,29 @@ class Interp:
             fl = {}
             if cfg["n_masses"]:
                 fl = dict(point_masses=[40.0], point_mass_locations=[[0.3, -0.4 * b, 0.0]], engine_thrusts=[300.0])
-            p = aerostruct_problem([s], fl, compressible=cfg["compressible"], mode=cfg["mode"], force_alloc_complex=True)
+            surfs = [s]
+            if cfg.get("two_surfaces"):
+                # a second aerostructural surface (tube tail of half the size, behind and above the wing)
+                tail = mesh * 0.5 + np.array([float(mesh[:, :, 0].max()) + 3.0, 0.0, float(mesh[:, :, 2].max()) + 1.5])
+                if sym:
+                    tail[:, -1, 1] = 0.0
+                t = struct_surface("tail", tail, sym, "tube", struct_weight_relief=cfg["weight_relief"], with_viscous=cfg["viscous"])
+                t["E"], t["G"] = s["E"], s["G"]
+                t["thickness_cp"] = 0.01 * np.ones(2)
+                surfs.append(t)
+            p = aerostruct_problem(surfs, fl, compressible=cfg["compressible"], mode=cfg["mode"], force_alloc_complex=True)
             A = "AS_point_0."
             of = [A + "CL", A + "CD", A + "CM", A + "fuelburn", A + "wing_perf.failure", A + "L_equals_W",
                   A + "total_perf.moment.M", "wing.structural_mass"]
+            if cfg.get("two_surfaces"):
+                of += [A + "tail_perf.failure", A + "tail_perf.CL"]
             wrt = ["alpha", "v", "rho", "Mach_number", "load_factor", "wing.twist_cp"]
             wrt += ["wing.thickness_cp"] if cfg["model"] == "tube" else ["wing.spar_thickness_cp", "wing.skin_thickness_cp"]
             self.outs = of + [A + "coupled.wing.disp", A + "coupled.wing_loads.loads", A + "wing_perf.vonmises",
                               A + "coupled.aero_states.wing_sec_forces"]
+            if cfg.get("two_surfaces"):
+                self.outs += [A + "coupled.tail.disp", A + "coupled.aero_states.tail_sec_forces", A + "cg"]
+                wrt = wrt + ["tail.twist_cp", "tail.thickness_cp"]
         return p, of, wrt
 
     def set_point(self, prob, pt):
